@@ -1,5 +1,6 @@
 import Nject.Collections
 import Nject.Validate
+import Nject.Pipeline
 /-
   C13 — grouping, naming and annotation placement are semantically neutral: everything downstream of
   collection construction only sees the flat provider list (and, for named edits, the origins).
@@ -44,5 +45,64 @@ theorem C13_bind_depends_on_flat_list (ti : TyInfo) (en1 en2 : List ENode) (d1 d
     (bindModel ti en1 d1 inv ini).toOption.map (fun b => b.chain.map (·.inc)) =
     (bindModel ti en2 d2 inv ini).toOption.map (fun b => b.chain.map (·.inc)) := by
   subst h1; subst h2; rfl
+
+end Nject
+
+namespace Nject
+
+/-- two sets of per-invocation types that differ at most in `Unused` -/
+def sameButUnused (a b : List Ty) : Prop := ∀ t, t ≠ tUnused → a.contains t = b.contains t
+
+theorem sameButUnused_prepend {a b : List Ty} (h : sameButUnused a b) (l : List Ty) : sameButUnused (l ++ a) (l ++ b) := by
+  intro t ht
+  have := h t ht
+  simp only [List.contains_eq_mem, List.mem_append, decide_eq_decide] at this ⊢
+  constructor
+  · rintro (hl | ha)
+    · exact Or.inl hl
+    · exact Or.inr (this.mp ha)
+  · rintro (hl | hb)
+    · exact Or.inl hl
+    · exact Or.inr (this.mpr hb)
+
+/-- **C13 (classification)**: whether `Unused` counts as a per-invocation type makes no difference to
+    `characterizeAndFlatten` -- no provider is demoted from the static set (or refused as MustCache) because the
+    invoke function, or a per-invocation provider before it, supplies `Unused`. -/
+theorem C13_unused_does_not_demote : ∀ (provs : List PDesc) (ns1 ns2 : List Ty), sameButUnused ns1 ns2 →
+    characterizeAll provs ns1 = characterizeAll provs ns2
+  | [], _, _, _ => rfl
+  | p :: rest, ns1, ns2, h => by
+    simp only [characterizeAll]
+    cases hc : characterize p rest.isEmpty true with
+    | none => rfl
+    | some c0 =>
+      simp only []
+      have hany : (c0.inp.any fun t => t != tUnused && ns1.contains t) = (c0.inp.any fun t => t != tUnused && ns2.contains t) := by
+        have hf : (fun t => t != tUnused && ns1.contains t) = (fun t => t != tUnused && ns2.contains t) := by
+          funext t
+          by_cases ht : t = tUnused
+          · simp [ht]
+          · rw [h t ht]
+        rw [hf]
+      rw [hany]
+      cases (if (c0.group == .staticGroup && c0.inp.any fun t => t != tUnused && ns2.contains t) = true then characterize p rest.isEmpty false else some c0) with
+      | none => rfl
+      | some c =>
+        simp only []
+        have hrec : characterizeAll rest (if (c.group == .runGroup || c.group == .invokeGroup) = true then c.out ++ ns1 else ns1)
+            = characterizeAll rest (if (c.group == .runGroup || c.group == .invokeGroup) = true then c.out ++ ns2 else ns2) := by
+          split
+          · exact C13_unused_does_not_demote rest _ _ (sameButUnused_prepend h c.out)
+          · exact C13_unused_does_not_demote rest _ _ h
+        rw [hrec]
+
+/-- in particular: an invoke function that takes `Unused` -/
+theorem C13_unused_invoke_argument_does_not_demote (provs : List PDesc) (ins : List Ty) :
+    characterizeAll provs (tUnused :: ins) = characterizeAll provs ins := by
+  apply C13_unused_does_not_demote
+  intro t ht
+  simp only [List.contains_cons]
+  have : (t == tUnused) = false := by simpa using ht
+  rw [this]; rfl
 
 end Nject
